@@ -677,7 +677,11 @@ def op_to_meshtri(ctx, rng, old, style=None, conform_expected=True):
             int(np.asarray(new_mesh.t).max()) == int(old.t.max()) + nt:
         x_mech = M_TRI_X
         ctx.reached("to-meshtri-x-on-mesh-with-extra-nodes")
-    valid = check_valid(ctx, op, new, mech=x_mech, allow_unused=(old.order == 2))
+    # a second-order input hands its non-vertex nodes over as unused vertices: Mesh.is_valid() then says False;
+    # counted, not judged (the geometry of the result does not depend on them)
+    valid = check_valid(ctx, op, new, mech=x_mech, allow_unused=(old.order == 2), lib=(old.order == 1))
+    if old.order == 2:
+        ctx.reached("observed:split-of-second-order-mesh-keeps-extra-nodes-as-unused-vertices")
     # coordinates: old vertices keep number and place, centroids appended
     pn = np.asarray(new_mesh.p)
     okp = pn.shape[1] == nold + (nt if style == "x" else 0) and np.array_equal(pn[:, :nold], np.asarray(m.p))
@@ -772,7 +776,7 @@ def op_to_meshtet(ctx, rng, old, conform_expected=False):
     info = {"op": op, "cls": old.cls, "ncells": nt}
     ctx.check("result-valid", type(new_mesh) is skfem.MeshTet1, mech=f"{op}:class", **info)
     new = St(new_mesh, "tet", 1)
-    valid = check_valid(ctx, op, new, allow_unused=(old.order == 2))
+    valid = check_valid(ctx, op, new, allow_unused=(old.order == 2), lib=(old.order == 1))
     ctx.check("coordinates-transformed", np.array_equal(np.asarray(new_mesh.p), np.asarray(m.p)),
               mech=f"{op}:vertices-kept", **info)
     by_vertex = {}
@@ -864,15 +868,21 @@ def op_extrude(ctx, rng, base, line, swap=False):
             return {frozenset([v + (z,) for v in base.ckey(c) for z in pr]) for c in range(base.nt) for pr in pairs}
     else:
         bc = line_cells(base)
+        xs = sorted(set(np.asarray(base.mesh.p)[0].tolist()))
+        bsorted = set(zip(xs[:-1], xs[1:]))
 
-        def expected(pairs):
+        def expected(pairs, bc=bc):
             return {frozenset([(x, z) for x in b for z in pr]) for b in bc for pr in pairs}
     got = [new.ckey(c) for c in range(new.nt)]
     want = expected(lcells)
     mech = None
     if set(got) != want:
         nodes_base = np.asarray(base.mesh.p).shape[1]
-        if lcells != sorted_pairs and set(got) == expected(sorted_pairs):
+        if base.kind == "line" and (lcells != sorted_pairs or bc != bsorted) and \
+                set(got) == expected(sorted_pairs, bsorted):
+            mech = M_EXTR_GAPS   # predicate: the result is the tensor grid of the two sorted point sets
+            ctx.reached("extrusion-over-gapped-line")
+        elif base.kind == "tri" and lcells != sorted_pairs and set(got) == expected(sorted_pairs):
             mech = M_EXTR_GAPS   # predicate: the result is the product with the sorted point set of the line
             ctx.reached("extrusion-over-gapped-line")
         elif base.kind == "tri" and nodes_base > int(base.t.max()) + 1:
